@@ -12,6 +12,7 @@ from mirsym.harness import *
 from mirsym.engine import NONE, SOME, OK, StubFuture, It
 
 ID = 'C06'
+TECHNIQUE = 'symbolic execution of rustc MIR (path-forking) + z3 SMT queries per path; the store is a nondeterministic content-map stub; violations reported on the solver verdict (no native replay: needs a backend on disk)'
 CRATES = ['jj-lib', 'jj-core']
 NATIVE = None
 NATIVE_CONFIRM = False        # needs a Store/Backend on disk; the solver verdict over the MIR decides
